@@ -23,5 +23,17 @@ if not ok:
         ok1, out1, _ = core.harness_build((b,))
         if not ok1:
             print("setup: WARNING harness binary %s does not build" % b)
+# C07: separate crate linking libyara 4.5.5 (vendored in yara-sys 0.32.0), built against /repo like the harness
+import shutil
+hy = 'harness_yara'
+if os.path.isdir(hy):
+    with core.Lock("cargo_yara"):
+        if not os.path.exists(os.path.join(hy, 'Cargo.lock')):
+            shutil.copy(os.path.join(core.REPO, 'Cargo.lock'), os.path.join(hy, 'Cargo.lock'))
+        rc, out = core.sh(["cargo", "build", "--offline", "--quiet"], cwd=hy, timeout=1500,
+                          env={"CARGO_NET_OFFLINE": "true", "RUSTFLAGS": "--cfg boreal_verif"})
+    print(out[-2000:])
+    if rc != 0:
+        print("setup: WARNING harness_yara does not build")
 sys.exit(0)
 PY
